@@ -249,4 +249,41 @@ theorem signature_needed_qed (s : Insp) (hf : s.fmt = .qed) (h : formatMatch s =
         beq_iff_eq] at h
       exact ⟨r, rfl, hc, h⟩
 
+theorem signature_needed_iso (s : Insp) (hf : s.fmt = .iso) (h : formatMatch s = .ok true) :
+    s.complete = true ∧ ∃ r, s.region "header" = .ok r ∧
+      (slice r.data 1 6 = ascii "CD001" ∨ slice r.data 1 6 = ascii "NSR02" ∨ slice r.data 1 6 = ascii "NSR03") := by
+  simp only [formatMatch, hf, bind, Except.bind] at h
+  cases hc : s.complete
+  · simp [hc, pure, Except.pure] at h
+  · simp only [hc, Bool.not_true, Bool.false_eq_true, if_false] at h
+    cases hr : s.region "header" with
+    | error e => simp [hr] at h
+    | ok r =>
+      simp only [hr, pure, Except.pure, Except.ok.injEq, Bool.or_eq_true, beq_iff_eq] at h
+      exact ⟨rfl, r, rfl, by rcases h with (h | h) | h <;> simp [h]⟩
+
+theorem signature_needed_qcow2 (s : Insp) (hf : s.fmt = .qcow2) (h : formatMatch s = .ok true) :
+    ∃ r, s.region "header" = .ok r ∧ r.complete = true ∧ s.qcowInfo.isSome = true := by
+  simp only [formatMatch, hf, bind, Except.bind] at h
+  cases hr : s.region "header" with
+  | error e => simp [hr] at h
+  | ok r =>
+    simp only [hr] at h
+    cases hc : r.complete
+    · simp [hc, pure, Except.pure] at h
+    · simp only [hc, Bool.not_true, Bool.false_eq_true, if_false, pure, Except.pure, Except.ok.injEq] at h
+      exact ⟨r, rfl, hc, h⟩
+
+/-- VMDK in sparse mode (a header region exists): a match needs the `KDMV` magic -/
+theorem signature_needed_vmdk (s : Insp) (hf : s.fmt = .vmdk) (r : Region)
+    (hr : lookupR "header" s.regions = some r) (h : formatMatch s = .ok true) :
+    r.data.take 4 = kdmv := by
+  simp only [formatMatch, hf, hr, Except.ok.injEq, startsWith, beq_iff_eq] at h
+  have hl : kdmv.length = 4 := by decide
+  rwa [hl] at h
+
+/-- raw matches everything: it is the inspector `formats` falls back on, never a specific answer by signature -/
+theorem raw_matches_everything (s : Insp) (hf : s.fmt = .raw) : formatMatch s = .ok true := by
+  simp [formatMatch, hf]
+
 end Oslo.Insp
